@@ -1,4 +1,6 @@
 SPECIFICATION TSpec
 CONSTANTS
+  Tier = "quick"
   TraceFile = "trace.ndjson"
+  CasesFile = "cases.ndjson"
 CHECK_DEADLOCK FALSE
